@@ -100,6 +100,11 @@ def judge(part, dtstart, r, N, got, ended, mon, style, text, orc):
         if isinstance(g, tuple):
             return [("invalid-instant", "stream produced %s" % (g[1],))]
     E, exhausted, npop = orc
+    # the oracle (and the library's calendar) ends with 2099: whatever comes after that is not judged
+    n0 = len(got)
+    got = [x for x in got if x.year <= 2099]
+    if len(got) < n0:
+        ended = True
     if mon:
         fails.append(("pop!=peek", mon[0]))
     if r.get("count") is not None and len(got) > r["count"]:
